@@ -111,8 +111,23 @@ def fork_and_construct_layer(ck, n_cases):
         first = [gen_dim(ck.rng, used) for _ in range(ck.rng.choice([0, 1, 2]))]
         if first:
             las.add_extra_dims([d.params() for d in first])
-        how = ck.rng.choice(["mask", "slice", "deepcopy_header"])
-        if how == "mask":
+        how = ["mask", "slice", "deepcopy_header", "points_reassigned_copy", "points_from_reader", "points_with_deepcopied_format"][ci % 6]
+        if how == "points_reassigned_copy":
+            # the same object, its points assigned again (an equal record carrying its own, equal, point format object)
+            las.points = las.points.copy()
+            other = las
+        elif how == "points_from_reader":
+            b_ = io.BytesIO()
+            las.write(b_)
+            with laspy.open(io.BytesIO(b_.getvalue())) as rd_:
+                other = laspy.LasData(rd_.header)
+                other.points = rd_.read_points(n)
+        elif how == "points_with_deepcopied_format":
+            rec_ = las.points.copy()
+            rec_.point_format = copy.deepcopy(las.header.point_format)
+            las.points = rec_
+            other = las
+        elif how == "mask":
             other = las[np.ones(n, dtype=bool)]
         elif how == "slice":
             other = las[0:n]
@@ -130,6 +145,20 @@ def fork_and_construct_layer(ck, n_cases):
                 inp["removed_on_the_derived_object"] = first[0].name
         except Exception as e:
             ck.fail(f"editing the extra dimensions of an object derived by {how} raised {type(e).__name__}: {e}", inp)
+            continue
+        if other.header.point_format.size != other.points.array.dtype.itemsize:
+            ck.fail(f"object derived by {how}: after editing its extra dimensions its point format size {other.header.point_format.size} != record length "
+                    f"{other.points.array.dtype.itemsize}", inp)
+        try:
+            b2_ = io.BytesIO()
+            other.write(b2_)
+            back_ = laspy.read(io.BytesIO(b2_.getvalue()))
+            if list(back_.point_format.extra_dimension_names) != list(other.point_format.extra_dimension_names) or len(back_.points) != len(other.points):
+                ck.fail(f"object derived by {how}: the file written after editing its extra dimensions reads back with extra dimensions "
+                        f"{list(back_.point_format.extra_dimension_names)} (object: {list(other.point_format.extra_dimension_names)})", inp)
+        except Exception as e:
+            ck.fail(f"object derived by {how}: writing / reading it after editing its extra dimensions raised {type(e).__name__}: {e}", inp)
+        if other is las:
             continue
         now = (dims_state(las), las.points.array.dtype.itemsize, las.header.point_format.size, n_eb_vlrs(las), eb_payload(las))
         if now != state_las:
